@@ -28,15 +28,20 @@ Proof. vm_compute. reflexivity. Qed.
 Print Assumptions C08_generator_pure. Print Assumptions C08_history_independent. Print Assumptions C08_table_ok.
 
 (* non-vacuity: two concrete requests sharing hydrogen, on the regenerated table, in exact arithmetic: the hypotheses
-   of C08_generator_pure hold and the call returns a five-peak pattern *)
+   of C08_generator_pure hold and the call returns a four-peak pattern (the second request needed fewer terms of hydrogen's table
+   than the third: the cached constants are extended; exact rationals grow quickly with the order, hence the small one) *)
 From Coq Require Import QArith Qcanon.
 From CE Require Import NumQc.
 Definition c08_el (s : string) : elem := match tbl_get s (build_table table_src) with Some e => e | None => elem0 end.
-Definition c08_r1 : request (F:=Qc) := mkReq [(c08_el "C", 6%Z); (c08_el "H", 12%Z)] 4%Z (Q2Qc 1) 1%Z (PROTON NumQc).
-Definition c08_r2 : request (F:=Qc) := mkReq [(c08_el "H", 2%Z); (c08_el "O", 1%Z)] 2%Z (Q2Qc 1) 0%Z (PROTON NumQc).
+(* the three elements, read from the regenerated table once *)
+Definition c08_C : elem := Eval vm_compute in c08_el "C".
+Definition c08_H : elem := Eval vm_compute in c08_el "H".
+Definition c08_O : elem := Eval vm_compute in c08_el "O".
+Definition c08_r1 : request (F:=Qc) := mkReq [(c08_C, 6%Z); (c08_H, 12%Z)] 3%Z (Q2Qc 1) 1%Z (PROTON NumQc).
+Definition c08_r2 : request (F:=Qc) := mkReq [(c08_H, 2%Z); (c08_O, 1%Z)] 2%Z (Q2Qc 1) 0%Z (PROTON NumQc).
 Example C08_nonvacuous :
   reqs_ok (c08_r1 :: [c08_r2; c08_r1])
-  /\ (match fst (gen_call NumQc (gen_run NumQc [c08_r2; c08_r1]) c08_r1) with Some l => List.length l | None => 0%nat end) = 5%nat.
+  /\ (match fst (gen_call NumQc (gen_run NumQc [c08_r2; c08_r1]) c08_r1) with Some l => List.length l | None => 0%nat end) = 4%nat.
 Proof.
   split; [|vm_compute; reflexivity].
   split.
